@@ -543,6 +543,7 @@ func checkC09Payload(c *Ctx) {
 	c09FormatStrings(c, "R-payload")
 	poolAliasRule(c, "R-frame-owned")
 	c09NoWriteDeadline(c, "R-frame-complete")
+	c09EncoderFramed(c, "R-frame-terminated")
 	// (a) fmt.Fprintf(w, "...data: %s...", payload): payload must come from json.Marshal
 	// (b) functions that write a payload followed by "\n" to an io.Writer param (stdio line writer): payload from json.Marshal
 	for _, fn := range c.P.LibFns {
@@ -881,5 +882,110 @@ func c09NoWriteDeadline(c *Ctx, rule string) {
 	}
 	if n == 0 {
 		c.R.Hold(rule, "no write deadline on a frame-carrying stream", "", "a slow peer blocks the writer; it does not truncate a frame")
+	}
+}
+
+// c09EncoderFramed (R-frame-terminated): a stream that carries one JSON message per line through a json.Encoder
+// (Encode appends the newline) is line-framed for every writer. A raw Write on the same stream has to end its frame
+// itself: the bytes of json.Marshal written as they are leave the line open, and the next message is glued onto it.
+// The stream is found, not named: the writer a library function hands to json.NewEncoder and also keeps in a member.
+func c09EncoderFramed(c *Ctx, rule string) {
+	framed := map[string]bool{}
+	for _, fn := range c.P.LibFns {
+		ir.EachCall(fn, func(call ssa.CallInstruction) {
+			if ir.CallName(call) != "encoding/json.NewEncoder" || len(call.Common().Args) != 1 {
+				return
+			}
+			w := call.Common().Args[0]
+			if f, _, ok := ir.LoadedField(w); ok {
+				framed[f.Key()] = true
+				return
+			}
+			// the same value is stored into a member (constructor: &T{stdin: stdin, encoder: json.NewEncoder(stdin)})
+			src := w
+			if mi, ok := w.(*ssa.MakeInterface); ok {
+				src = mi.X
+			}
+			if ci, ok := w.(*ssa.ChangeInterface); ok {
+				src = ci.X
+			}
+			ir.EachInstr(fn, func(_ *ssa.BasicBlock, _ int, in ssa.Instruction) {
+				st, ok := in.(*ssa.Store)
+				if !ok {
+					return
+				}
+				v := st.Val
+				if mi, ok := v.(*ssa.MakeInterface); ok {
+					v = mi.X
+				}
+				if ci, ok := v.(*ssa.ChangeInterface); ok {
+					v = ci.X
+				}
+				if v != src && st.Val != w {
+					return
+				}
+				if fa, ok := st.Addr.(*ssa.FieldAddr); ok {
+					if key, _, _, _ := ir.FullField(fa); key != "" {
+						framed[key] = true
+					}
+				}
+			})
+		})
+	}
+	var keys []string
+	for k := range framed {
+		keys = append(keys, k)
+	}
+	sort.Strings(keys)
+	c.R.Extra["encoder_framed_streams"] = keys
+	endsLine := func(v ssa.Value) bool {
+		v = unspill(v)
+		if s, ok := ir.ConstStr(v); ok {
+			return strings.HasSuffix(s, "\n")
+		}
+		if cv, ok := v.(*ssa.Convert); ok {
+			if s, ok := ir.ConstStr(cv.X); ok {
+				return strings.HasSuffix(s, "\n")
+			}
+		}
+		if call, ok := v.(*ssa.Call); ok {
+			if b, ok := call.Call.Value.(*ssa.Builtin); ok && b.Name() == "append" && len(call.Call.Args) == 2 {
+				els := variadicElems(call.Call.Args[1])
+				if len(els) > 0 && els[len(els)-1] != nil {
+					if n, ok := ir.ConstInt(els[len(els)-1]); ok && n == '\n' {
+						return true
+					}
+				}
+				if s, ok := ir.ConstStr(call.Call.Args[1]); ok {
+					return strings.HasSuffix(s, "\n")
+				}
+			}
+		}
+		return false
+	}
+	n := 0
+	for _, fn := range c.P.LibFns {
+		cnt := 0
+		ir.EachCall(fn, func(call ssa.CallInstruction) {
+			cc := call.Common()
+			if !cc.IsInvoke() || (cc.Method.Name() != "Write" && cc.Method.Name() != "WriteString") || len(cc.Args) != 1 {
+				return
+			}
+			f, _, ok := ir.LoadedField(cc.Value)
+			if !ok || !framed[f.Key()] {
+				return
+			}
+			n++
+			cnt++
+			c.R.Check(endsLine(cc.Args[0]), rule, sprintf("raw write #%d on the line-framed stream %s in %s", cnt, f.Key(), fname(fn)), c.Pos(call.Pos()),
+				"the bytes written end with a newline",
+				sprintf("%s writes to %s — a stream framed one JSON message per line by a json.Encoder — bytes that are not known to end with '\\n' (e.g. the result of json.Marshal as it is): the frame stays open and the peer reads it glued to the next message", fname(fn), f.Key()))
+		})
+	}
+	if n == 0 {
+		c.R.Hold(rule, "no raw write on a stream framed by a json.Encoder", "", sprintf("%d such stream(s): %v", len(keys), keys))
+	}
+	if len(keys) == 0 {
+		c.R.Break("%s: no stream framed by a json.Encoder found (expected the stdio client's stdin)", rule)
 	}
 }
